@@ -367,7 +367,7 @@ NextTp(ok) ==
     [] c = "Rcpt"    -> [tp EXCEPT !.nr = @ + 1, !.nok = IF ok THEN @ + 1 ELSE @]
     [] c \in {"Data", "LData"} -> [tp EXCEPT !.s = IF ok /\ ~cfg.lmtp THEN "sentok" ELSE "sent"]
     [] c = "Reset"   -> [tp EXCEPT !.s = IF ok THEN "idle" ELSE "must"]
-    [] c = "Noop"    -> tp
+    [] c = "Noop"    -> IF ok \/ tp.s = "new" THEN tp ELSE [tp EXCEPT !.s = "must"]
     [] c \in {"Close", "DirectClose"} -> [tp EXCEPT !.s = "new", !.nclose = @ + 1]
 
 Ret(r) ==
